@@ -153,7 +153,7 @@ def u6_run(carve):
                 nonlocal n
                 n += 1
                 try:
-                    got = ex(tbl)
+                    got = ex(tbl() if callable(tbl) else tbl)
                 except (pdt.errors.SubqueryError, pdt.errors.NotSupportedError):
                     return
                 except Exception as e:  # noqa: BLE001
@@ -188,6 +188,32 @@ def u6_run(carve):
                     bad.append(f"[{be}] a | b' (Int64 | Float64 column): the result column is announced as {mixed.a.dtype()} and exported as {got_t}")
             except Exception as e:  # noqa: BLE001
                 bad.append(f"[{be}] a | b' (Int64 | Float64 column): raises {type(e).__name__}")
+            # hidden columns on either side never reach the result
+            chk("a | (b with a hidden computed column)", a >> pdt.union(b >> pdt.mutate(e=b.a * 2) >> pdt.drop(pdt.C.e)), ra + rb)
+            chk("(a with a hidden computed column) | b", a >> pdt.mutate(e=a.a * 2) >> pdt.select(a.a, a.b) >> pdt.union(b), ra + rb)
+            chk("(a.select(b)) |d (b.select(b))", a >> pdt.select(a.b) >> pdt.union(b >> pdt.select(b.b), distinct=True) >> pdt.mutate(a=1) >> pdt.select(pdt.C.a, pdt.C.b),
+                [(1, y) for y in dict.fromkeys(r[1] for r in ra + rb)])
+            # operands that are themselves multi-table / sliced pipelines
+            b2 = b >> pdt.alias("b2")
+            chk("a | (b self-joined, then projected)", lambda: a >> pdt.union(b >> pdt.join(b2, b.b == b2.b, "inner", suffix="_r") >> pdt.select(b.a, b.b)),
+                ra + [r for r in rb for r2 in rb if r[1] is not None and r[1] == r2[1]])
+            sl = b >> pdt.arrange(b.b.nulls_last(), b.a) >> pdt.slice_head(2) >> pdt.alias("sl")
+            first2 = sorted(rb, key=lambda r: (r[1] is None, r[1] or "", r[0] or 0))[:2]
+            chk("a | (b >> arrange >> slice_head(2) >> alias)", lambda: a >> pdt.union(sl), ra + first2)
+            chk("a | (b >> alias >> arrange >> slice_head(2)) [refusal permitted]", lambda: a >> pdt.union(b >> pdt.alias("s3") >> pdt.arrange(pdt.C.b.nulls_last(), pdt.C.a) >> pdt.slice_head(2)), ra + first2)
+            # a reference taken from an operand before the union denotes the union's column (its type is the union's)
+            xa = a >> pdt.mutate(tag=1)
+            n += 1
+            try:
+                un = xa >> pdt.union(b >> pdt.mutate(tag=2))
+                cnt = un >> pdt.group_by(xa.tag) >> pdt.summarize(n=pdt.count()) >> pdt.export(pdt.Polars())
+                got = sorted(tuple(r) for r in cnt.select("tag", "n").rows())
+                if got != [(1, len(ra)), (2, len(rb))]:
+                    bad.append(f"[{be}] x = a >> mutate(tag=1); x | b.mutate(tag=2) >> group_by(x.tag) >> summarize(count): {got}; documented {[(1, len(ra)), (2, len(rb))]}")
+            except (pdt.errors.SubqueryError, pdt.errors.NotSupportedError):
+                pass
+            except Exception as e:  # noqa: BLE001
+                bad.append(f"[{be}] group_by(<reference taken before the union>): raises {type(e).__name__}: {str(e)[:100]}")
             # a column that is a constant on each side is not a constant of the union (verbs after the union)
             tagged = a >> pdt.mutate(tag=1) >> pdt.union(b >> pdt.mutate(tag=2))
             n += 1
@@ -200,6 +226,25 @@ def u6_run(carve):
                 pass
             except Exception as e:  # noqa: BLE001
                 bad.append(f"[{be}] tagged union >> group_by(tag): raises {type(e).__name__}: {str(e)[:100]}")
+    # two different databases: the union may be refused, but never be answered from one of them alone
+    import os
+    import tempfile
+
+    with tempfile.TemporaryDirectory() as td, warnings.catch_warnings():
+        warnings.simplefilter("ignore")
+        e1, e2 = sqa.create_engine(f"sqlite:///{os.path.join(td, 'one.db')}"), sqa.create_engine(f"sqlite:///{os.path.join(td, 'two.db')}")
+        A.write_database("a", e1)
+        B.write_database("b", e2)
+        B.head(1).write_database("b", e1)  # a decoy with the same name in the left database
+        n += 1
+        try:
+            got = [tuple(r) for r in (pdt.Table("a", pdt.SqlAlchemy(e1)) >> pdt.union(pdt.Table("b", pdt.SqlAlchemy(e2))) >> pdt.export(pdt.Polars())).select("a", "b").rows()]
+            if not same(got, ra + rb):
+                bad.append(f"[sqlite] union of tables from two different databases: {sorted(got, key=str)} (the right table was read from the left database)")
+        except Exception:  # noqa: BLE001 - any refusal is fine here
+            pass
+        e1.dispose()
+        e2.dispose()
     return _enum_outcome("union / union(distinct=True) multiplicities, NULL rows, alignment by name and chained unions agree with a Python oracle; operands keep their meaning", n, bad)
 
 
@@ -219,7 +264,7 @@ def obligations(tier):
                 obs.append(Obligation(f"C07/U/{backend}/{ls}u{rs}/distinct={distinct}", "U1-U5", f"union(distinct={distinct}) of {ls} and {rs} on {backend}", make_run(pf, distinct, backend),
                                       functions=f, bounded=f"table widths {ls.w} and {rs.w} (names symbolic, hidden/visible name collisions explored)", tags=("cross_backend",)))
     obs.append(Obligation("C07/U6/native_oracle", "U6", "unions against a Python oracle (multiplicities, NULL rows, alignment by name, chains, operand reuse)", u6_run, functions=fns_p + [fi(H.sql_backend.SqlImpl.compile_ast)],
-                          bounded="14 union shapes x 2 backends on three small tables with duplicates and NULL rows"))
+                          bounded="21 union shapes x 2 backends on three small tables with duplicates and NULL rows"))
     pf = [lambda: TS.Pre(TS.Skeleton(("vis",)), "l"), lambda: TS.Pre(TS.Skeleton(("vis",)), "r")]
     for backend, f in (("polars", fns_p), ("sql", fns_s)):
         obs.append(Obligation(f"C07/U1/{backend}/different_backends", "U1", "union of tables with different backends is refused with TypeError", make_run(pf, False, backend, same_backend=False), functions=f, bounded="width 1"))
